@@ -6,7 +6,7 @@ open Bifrost
 def kv (args : List String) (k : String) : Option String :=
   args.findSome? fun a =>
     match a.splitOn "=" with
-    | [k', v] => if k' = k then some v else none
+    | k' :: v :: rest => if k' = k then some ("=".intercalate (v :: rest)) else none
     | _ => none
 
 def kvBytes (args : List String) (k : String) : Option Bytes := (kv args k).bind unhex
